@@ -30,15 +30,21 @@ EXPR = {
     # the workbook's link table is [legacy.xls (not loadable), c.xlsx]: [1] is unresolvable, [2] is c.xlsx
     'xlslink': '[1]Sheet1!A1',
 }
+# other spellings of an unknown function: dotted names whose parts are implemented functions, names that extend an implemented one
+ALT = {'func': ['FOO.SUM(A1)', 'SUM.FOO(A1)', 'SUMX(A1)', 'XSUM(A1)', 'CEILING.NOSUCH(A1,1)', 'T.NOSUCH(A1)'],
+       'xlfn': ['_xlfn.ECMA.CEILING(A1,1)', '_xlfn.CONFIDENCE.T(A1,1,3)', '_xlfn._xlws.NEWSORT(A1)', '_xlfn.SUM.X(A1)', '_xlfn.X.SUM(A1)', '_xlfn.XSUM(A1)', '_XLFN.newfunc(A1)']}
 KIND = {'func': ['#NAME?'], 'xlfn': ['#NAME?'], 'sheet': ['#REF!'], 'book': ['#REF!'], 'unreadable': ['#REF!'], 'name': ['#REF!', '#NAME?'],
         'ref': ['#REF!'], 'link': ['#REF!', '#NAME?'], 'xsheetZ': ['#REF!'], 'xsheetA': ['#REF!'], 'name2': ['#REF!', '#NAME?'], 'xlslink': ['#REF!', '#NAME?']}
 POS = ['head', 'middle', 'leaf']
 P = "'[b.xlsx]S'!"
 
 
-def formulas_for(pos, faults, qualify=False):
+def formulas_for(pos, faults, qualify=False, alt=None):
     """cell -> formula text. chain C1 -> C2 -> C3; clean chain B1 -> B2; dependents D*."""
     q = P if qualify else ''
+    EXPR = dict(globals()['EXPR'])
+    for k, i in (alt or {}).items():
+        EXPR[k] = ALT[k][i]
     extra = ''.join('+' + (EXPR[f] if not qualify else EXPR[f].replace('A1', P + 'A1').replace('UNDEFNAME', "'[b.xlsx]'!UNDEFNAME").replace('OTHERNAME', "'[b.xlsx]'!OTHERNAME")) for f in faults)
     c = {
         'B1': '=%sA1+%sA2' % (q, q), 'B2': '=%sB1*2' % q,
@@ -110,16 +116,17 @@ def judge(sol, pos, faults, path, fails):
 
 
 def run_case(case):
-    path, pos, faults = case
+    path, pos, faults = case[:3]
+    alt = case[3] if len(case) > 3 else None
     import formulas
     from xl.wbspec import Scratch
     from xl.evalcell import exc_name
     fails = []
-    desc = dict(path=path, pos=pos, faults='+'.join(faults) or 'none', nfaults=len(faults))
+    desc = dict(path=path, pos=pos, faults='+'.join(faults) or 'none', nfaults=len(faults), alt=str(alt))
     try:
         if path == 'file':
             import openpyxl
-            cells, _ = formulas_for(pos, faults)
+            cells, _ = formulas_for(pos, faults, alt=alt)
             wb = openpyxl.Workbook()
             ws = wb.active
             ws.title = 'S'
@@ -143,7 +150,7 @@ def run_case(case):
                 wc.save(os.path.join(d, 'c.xlsx'))
                 sol = formulas.ExcelModel().loads(os.path.join(d, 'b.xlsx')).finish().calculate()
         else:
-            cells, _ = formulas_for(pos, faults, qualify=True)
+            cells, _ = formulas_for(pos, faults, qualify=True, alt=alt)
             d = {P + 'A1': 1, P + 'A2': 2}
             d.update({P + c: f for c, f in cells.items()})
             sol = formulas.ExcelModel().from_dict(d).calculate()
@@ -166,6 +173,14 @@ def cases(tier):
         for r in range(0, len(DICT_FAULTS) + 1):
             for sub in itertools.combinations(DICT_FAULTS, r):
                 yield ['dict', pos, list(sub)]
+        # other spellings of the unknown function, alone and next to one other fault
+        for k in ALT:
+            for i in range(len(ALT[k])):
+                for path, others in (('file', FAULTS), ('dict', DICT_FAULTS)):
+                    yield [path, pos, [k], {k: i}]
+                    for o in others:
+                        if o != k and (tier != 'quick' or pos == 'middle'):
+                            yield [path, pos, sorted([k, o], key=FAULTS.index), {k: i}]
 
 
 def run(ctx):
